@@ -14,10 +14,23 @@ from . import core
 from pvl.collections import (OrderedMultiDict, PVLModule, PVLGroup,
                              PVLObject, Quantity)
 
-CLASSES = {"OrderedMultiDict": OrderedMultiDict, "PVLModule": PVLModule,
-           "PVLGroup": PVLGroup, "PVLObject": PVLObject}
+class MyModule(PVLModule):
+    """A user's subclass, as the parsers' module_class= option allows."""
 
-KEYS = ["a", "b", "c", "d"]
+
+class MyGroup(PVLGroup):
+    pass
+
+
+class MyObject(PVLObject):
+    pass
+
+
+CLASSES = {"OrderedMultiDict": OrderedMultiDict, "PVLModule": PVLModule,
+           "PVLGroup": PVLGroup, "PVLObject": PVLObject,
+           "MyModule": MyModule, "MyGroup": MyGroup, "MyObject": MyObject}
+
+KEYS = ["a", "b", "c", "d", "^e"]
 OP_STEP_BUDGET = 200000     # line events inside pvl per container operation
 SENT = object()
 
@@ -810,6 +823,13 @@ class Machine:
                 self.register_deep(c, cm, set())
         except Problem as p:
             self.fail(p.cls, p.detail)
+        if not self.problems and not shallow:
+            shared = mutable_ids(real) & mutable_ids(c)
+            if shared:
+                self.fail("deep-copy-shares-mutable", "%s: the copy and the "
+                          "original share %d mutable object(s) (a list, set "
+                          "or container reachable from both)" %
+                          (mech, len(shared)))
         if not self.problems:
             try:
                 if not (c == real and real == c) or c != real:
@@ -823,6 +843,32 @@ class Machine:
                 self.fail("copy-not-equal", "comparing the copy raised %r"
                           % (e,))
         return (lambda: None), ("ret", None)
+
+
+def mutable_ids(v, acc=None, depth=0):
+    """ids of every mutable object (container, list, set) reachable from v."""
+    acc = acc if acc is not None else set()
+    if depth > 30:
+        return acc
+    if isinstance(v, OrderedMultiDict):
+        if id(v) in acc:
+            return acc
+        acc.add(id(v))
+        try:
+            items = list(v)
+        except Exception:   # noqa: BLE001
+            return acc
+        for it in items:
+            if isinstance(it, tuple) and len(it) == 2:
+                mutable_ids(it[1], acc, depth + 1)
+    elif isinstance(v, (list, set)):
+        acc.add(id(v))
+        for x in list(v):
+            mutable_ids(x, acc, depth + 1)
+    elif isinstance(v, (tuple, frozenset)):
+        for x in v:
+            mutable_ids(x, acc, depth + 1)
+    return acc
 
 
 _RESTART = None
